@@ -541,7 +541,8 @@ def run_case(case, monitor_factory, history_checks=None, keep_dir=False, scratch
                         res["events"].append({"ev": "user_edit_failed", "inc": inc,
                                               "exc": type(exc).__name__})
             code, events, end = run_incarnation(case, inc, spec, rundir, decisions, root,
-                                                monitor_factory, pre_install=pre_install)
+                                                monitor_factory, pre_install=pre_install,
+                                                timeout=case.get("inc_timeout", 240))
             for ev in events:
                 ev["inc"] = inc
             res["events"].extend(events)
@@ -575,6 +576,9 @@ def run_case(case, monitor_factory, history_checks=None, keep_dir=False, scratch
         if keep_dir:
             res["rundir"] = rundir
         return res
+    except BaseException:
+        rm_tree(root)
+        raise
     finally:
         if not keep_dir:
             rm_tree(root)
